@@ -92,7 +92,18 @@ pub fn gen(seed: u64, count: u32, dir: &str) {
         if has_memo && !ds.contains("Clone") {
             continue;
         }
-        let text = printer::print_canonical(&g);
+        // a third of the grammars in a random layout (raw control characters inside literals, comments, CRLF line ends),
+        // and some with an extra rule whose literals contain raw CR LF / TAB / NBSP sequences
+        let mut text = if k % 3 == 0 {
+            let lb = verif_core::plans::rng_bytes(seed, "C16-layout", k, 400);
+            let mut src = verif_core::util::Src::new(&lb);
+            printer::print_with(&g, &mut src, false).0
+        } else {
+            printer::print_canonical(&g)
+        };
+        if k % 4 == 1 {
+            text.push_str("RawCtl = 'a\r\nb' \"\t\r\n\" '\u{a0}\r' | '\n\r';\r\n");
+        }
         let derives: Vec<String> = if ds == "-" { vec![] } else { ds.split(',').map(|s| s.to_string()).collect() };
         let settings = CodegenSettings { derives, ..Default::default() };
         let code = match PGrammar::from_str(&text).ok().and_then(|p| p.generate_code(&settings).ok()) {
